@@ -39,6 +39,7 @@ type W3Op struct {
 	Q     []float32 `json:"q,omitempty"`
 	DS    int       `json:"ds,omitempty"`  // dataset slot (0 = the default dataset)
 	Dim   int       `json:"dim,omitempty"` // override vector dimension (C11/C12)
+	DimAt int       `json:"dim_at,omitempty"` // batches: only the DimAt-th item (1-based) gets the overridden dimension (0: all)
 	P     int       `json:"p,omitempty"`
 	R     int       `json:"r,omitempty"`
 }
@@ -159,7 +160,8 @@ func metaProblem(id, ver int, md map[string]string, insertVers map[int]bool) str
 		return fmt.Sprintf("metadata key born (set by the insert, never overwritten by an update) is missing: %v", md)
 	}
 	var bv int
-	if _, err := fmt.Sscan(b, &bv); err != nil || bv > ver {
+	// (born may exceed ver: an update that was in flight for long can land after a later insert)
+	if _, err := fmt.Sscan(b, &bv); err != nil {
 		return fmt.Sprintf("metadata key born is %q on an item holding version %d", b, ver)
 	}
 	if insertVers != nil && !insertVers[bv] {
@@ -169,6 +171,17 @@ func metaProblem(id, ver int, md map[string]string, insertVers map[int]bool) str
 		return fmt.Sprintf("metadata has keys nobody wrote: %v", md)
 	}
 	return ""
+}
+
+// itemDimOK: does the i-th item of the operation carry a vector of the dataset's dimension?
+func itemDimOK(op W3Op, i, dsDim int) bool {
+	if op.Dim == 0 || op.Dim == dsDim {
+		return true
+	}
+	if strings.HasPrefix(op.K, "b") && op.DimAt != 0 {
+		return op.DimAt != i+1
+	}
+	return false
 }
 
 func errKind(err error) string {
@@ -611,6 +624,10 @@ func (r *W3Run) startWrite(h *histOp) {
 		for i, id := range op.Ids {
 			it := &pb.BatchItem{Id: idOf(id).Bytes()}
 			if op.K != "brem" {
+				dim := info.dim
+				if !itemDimOK(op, i, info.dim) {
+					dim = op.Dim
+				}
 				it.Value = vecOf(id, op.Vers[i], dim)
 				it.Metadata = metaOf(id, op.Vers[i], op.K)
 			}
